@@ -91,6 +91,14 @@ BAD_REQUESTS: list[tuple[str, str, dict[str, Any]]] = [
     ("wrong-type", "check", {"set": {"files": 5}}),
     ("wrong-type", "check", {"set": {"files": [5]}}),
     ("wrong-type", "check", {"set": {"files": {"main.py": 1}}}),
+    # well-framed, valid JSON whose strings are hostile (lone surrogates written as \\udXXX escapes, NUL, non-BMP,
+    # very long): the daemon echoes command names and file names back in its replies.  (`check` with other
+    # files is not a fault: it legitimately replaces the source list a later `recheck` refers to.)
+    ("hostile-string", "status", {"set": {"command": "stat\udc80us"}}),
+    ("hostile-string", "status", {"set": {"command": "st\u00e4tus\U0001F600"}}),
+    ("hostile-string", "status", {"set": {"command": "stat\x00us"}}),
+    ("hostile-string", "status", {"set": {"command": "x" * 70000}}),
+    ("hostile-string", "recheck", {"set": {"update": ["\udcff.py"], "remove": ["\ud800"]}}),
     ("malformed-stop", "stop", {"set": {"bogus": 1}}),
     ("malformed-stop", "stop", {"drop": ["is_tty"]}),
 ]
